@@ -160,3 +160,26 @@ class ExchangeClf(object):
 
     def sense(self, *targets, **options):
         return None if nondet_bool() else targets[0]
+
+
+class FaultyDevice(object):
+    """a driver that honours the documented error contract of the Device interface (C13)"""
+    def _outcome(self):
+        k = nondet_int(0, 5)
+        if k == 1:
+            raise nfc.clf.TimeoutError("timeout")
+        if k == 2:
+            raise nfc.clf.TransmissionError("transmission")
+        if k == 3:
+            raise nfc.clf.BrokenLinkError("field lost")
+        if k == 4:
+            raise nfc.clf.ProtocolError("protocol")
+        if k == 5:
+            raise IOError(5, "host link broken")
+        return nondet_bytearray(0, None)
+
+    def send_cmd_recv_rsp(self, target, data, timeout):
+        return self._outcome()
+
+    def send_rsp_recv_cmd(self, target, data, timeout):
+        return None if nondet_bool() else self._outcome()
